@@ -557,6 +557,16 @@ pub fn special_cases() -> Vec<(String, Vec<u8>)> {
         e.1.set("DecodeParms", Val::dict(vec![("K", Val::Int(k)), ("Columns", Val::Int(width)), ("Rows", Val::Int(rows))]));
         v.push((format!("ccitt-width-and-columns-{}", name), rich_doc_with(b"", DocOpts::CLASSIC, &objs)));
     }
+    // content streams whose operators each look ahead: many inline images that never end, many unbalanced brackets
+    for (name, unit, times) in [("BI-ID-without-EI", &b"BI ID "[..], 100_000usize), ("BI-without-ID", &b"BI /W 1 "[..], 100_000), ("open-array", &b"[ "[..], 200_000), ("open-dict", &b"<< /A "[..], 100_000), ("BT-nested", &b"BT q "[..], 100_000), ("open-string", &b"( "[..], 200_000), ("BI-ID-EI-tiny", &b"BI /W 1 /H 1 /BPC 8 /CS /G ID x EI "[..], 20_000)] {
+        let mut fb = FileBuilder::new(b"");
+        fb.add(1, 0, &cat);
+        fb.add(2, 0, &Val::dict(vec![("Type", Val::name("Pages")), ("Kids", Val::Array(vec![Val::r(3)])), ("Count", Val::Int(1)), ("MediaBox", Val::ints(&[0, 0, 9, 9]))]));
+        fb.add(3, 0, &Val::dict(vec![("Type", Val::name("Page")), ("Parent", Val::r(2)), ("Resources", Val::dict(vec![])), ("Contents", Val::r(4))]));
+        fb.add(4, 0, &Val::stream(vec![], unit.repeat(times)));
+        fb.finish_table(&[("Root", Val::r(1))], Split::Runs);
+        v.push((format!("content-{}-x{}", name, times), fb.bytes()));
+    }
     // PostScript calculator operands
     for (name, prog) in [("ps-roll-negative", "{ 1 2 3 3 -1 roll }"), ("ps-roll-huge", "{ 1 2 3 3 2147483647 roll }"), ("ps-roll-n-huge", "{ 1 2 2147483647 1 roll }"), ("ps-index-huge", "{ 1 2147483647 index }"), ("ps-index-negative", "{ 1 -1 index }"), ("ps-pop-empty", "{ pop pop pop }"), ("ps-deep", "{ dup dup dup dup dup dup dup dup dup dup dup dup dup dup dup dup dup dup dup dup }"), ("ps-unbalanced", "{ { 1 }"), ("ps-empty", "")] {
         let mut objs = hostile_objects();
